@@ -438,6 +438,26 @@ func (w *world) applyInner(e simEvent) error {
 		if n == nil || !n.up || n.drivers[e.F] == nil {
 			return fmt.Errorf("%w: no replication stream n%d->f%d", errSimHarness, e.N+1, e.F)
 		}
+		// a recorded history may meet the other outcome of a map-order dependent step, in which this stream is
+		// stopped or in another phase: the event does not exist there (executing it anyway would call the real
+		// methods with a connection the real control flow never passes them)
+		d := n.drivers[e.F]
+		ok := false
+		switch e.K {
+		case "RC":
+			ok = d.canConnect()
+		case "RS":
+			ok, _ = d.canSend()
+		case "RH":
+			ok = d.canHeartbeat()
+		case "RR":
+			ok = d.canRecv()
+		case "RF":
+			ok = d.live() && d.c != nil && d.helper == nil
+		}
+		if !ok {
+			return fmt.Errorf("%w: %v is not enabled in this state (stream n%d->f%d)", errSimHarness, e, e.N+1, e.F)
+		}
 		return w.applyDriver(n, e)
 	default:
 		return w.applyDriver(n, e)
